@@ -88,7 +88,7 @@ func (f *rateFlag) Set(v string) (err error) {
 	}
 
 	switch ps[1] {
-	case "ns", "us", "µs", "ms", "s", "m", "h":
+	case "ns", "us", "µs", "μs", "ms", "s", "m", "h": // both spellings of the micro sign, as time.ParseDuration has them
 		ps[1] = "1" + ps[1]
 	}
 
